@@ -111,8 +111,29 @@ def _expand(ops):
 
 case_rules = st.fixed_dictionaries({"ops": st.lists(st.one_of(common + explicit + flips + burst + paused), min_size=3,
                                                     max_size=50).map(_expand)})
-case_life = st.fixed_dictionaries({"ops": st.lists(st.one_of(common + game_ops + game_ops + flips + burst), min_size=3,
-                                                   max_size=50).map(lambda l: [["start"]] + l)})
+# scenario: a flipper with EOS is held up (button pressed, EOS closed) while the ball ends / the machine tilts / service
+# mode is entered / the game ends, and the EOS switch opens afterwards
+held = [st.tuples(st.just("held_through"), st.sampled_from([2, 3]),
+                  st.sampled_from(["end_game", "end_game", "tilt", "service_enter", "drain"])).map(list)] * 3
+
+
+def _expand_life(ops):
+    out = [["start"]]
+    for o in ops:
+        if o[0] == "held_through":
+            n = o[1]
+            out += [["start"], ["advance", 500], ["button", "s_flip%d" % n, 1], ["advance", 100], ["button", "s_eos%d" % n, 1],
+                    ["advance", 100], [o[2]], ["advance", 100], ["button", "s_eos%d" % n, 0], ["advance", 100],
+                    ["button", "s_flip%d" % n, 0], ["advance", 100]]
+            if o[2] == "service_enter":
+                out.append(["service_exit"])
+        else:
+            out.append(o)
+    return out
+
+
+case_life = st.fixed_dictionaries({"ops": st.lists(st.one_of(common + game_ops + game_ops + flips + burst + held), min_size=3,
+                                                   max_size=50).map(_expand_life)})
 
 
 def run(case, lifecycle):
@@ -143,6 +164,22 @@ def run(case, lifecycle):
         ev.add_handler("ball_started", lambda **kwargs: phase.__setitem__("ball", True), priority=-1000)
         ev.add_handler("ball_will_end", lambda **kwargs: phase.__setitem__("ball", False), priority=-1000)
         wanted = {}
+        searching = [False]
+        if lifecycle:
+            # cabinet buttons cannot fire coils outside a ball: every pulse/enable reaching a flipper or autofire coil
+            # driver while no ball is in play (and no ball search runs) is a violation
+            for cn in ("c_main1", "c_hold1", "c_main2", "c_main3", "c_hold3", "c_main4", "c_main5", "c_af1", "c_af2", "c_af3"):
+                hw = m.coils[cn].hw_driver
+                for call in ("pulse", "enable"):
+                    orig = getattr(hw, call)
+
+                    def spy(*a, _orig=orig, _cn=cn, _call=call):
+                        quiet = m.game is None or not phase["ball"] or phase["service"]
+                        if quiet and not searching[0]:
+                            v("coil-fired-outside-ball", "%s.%s%r reached the platform driver while no ball was in play "
+                              "(game=%r, service=%r)" % (_cn, _call, a, m.game is not None, phase["service"]))
+                        return _orig(*a)
+                    setattr(hw, call, spy)
 
         def invariant(where):
             exp = expected_rules(m)
@@ -238,12 +275,14 @@ def run(case, lifecycle):
                     rig.run_ready()
                 elif k == "ball_search":
                     bs = m.playfield.ball_search
+                    searching[0] = True
                     bs.enable()
                     bs.start()
                     rig.advance(o[1] / 1000.0)
                     bs.stop()
                     bs.disable()
-                    rig.run_ready()
+                    rig.advance(0.25)       # hold times of the searched flippers (<= 200 ms) run out
+                    searching[0] = False
                     classes.add("ball-search")
                 elif k == "advance":
                     rig.advance(o[1] / 1000.0)
